@@ -107,6 +107,14 @@ theorem elementwise_containers (u : PyVal α) :
       List.Forall₂ (fun (p : String × Val α) (r : String × Res α) => p.1 = r.1 ∧ toUnitless p.2 u = .ok r.2) d rs) :=
   ⟨fun l => toUnitlessFlat_ok_iff l u, fun _ _ h => toUnitlessFlat_error h, toUnitlessList_ok_iff u, toUnitlessDict_ok_iff u⟩
 
+/-- **Composition and linearity, element-wise.** For a flat container (list, tuple, array): converting to `u` and multiplying by the
+    conversion of `u` to `w` is converting to `w` directly; scaling every element by `c` scales every result by `c`. -/
+theorem compose_linear_containers (l : List (PyVal α)) (u w : PyVal α) (hl : ∀ a ∈ l, a.WF) (hu : u.WF) (hw : w.WF) (hu0 : u.si ≠ 0)
+    (xs : List α) (h1 : toUnitlessFlat l u = .ok xs) :
+    (∀ b, toUnitlessScalar u w = .ok b → toUnitlessFlat l w = .ok (xs.map (· * b))) ∧
+    (∀ c, toUnitlessFlat (l.map fun a => (PyVal.num c).mul a) u = .ok (xs.map (c * ·))) :=
+  ⟨fun b h2 => toUnitlessFlat_compose l u w hl hu hw hu0 xs b h1 h2, fun c => toUnitlessFlat_scale l u hl hu c xs h1⟩
+
 /-- **Plain numeric arrays** (after fix 005cbe4). A plain `np.ndarray` is converted exactly like the list of its elements, for
     EVERY target: each element `x` becomes `x / u.si` when `u` is dimensionless (scaled ratios such as cm/m, km/m included),
     and the call raises ValueError when `u` carries a dimension (non-empty array).  The `return value` shortcut is taken only
@@ -300,6 +308,13 @@ theorem unit_of_simplified_spec (v : PyVal α) (hv : v.WF) :
     (∀ q, unitOfScalarS true v = .qty q → q.unit.factor = 1) ∧ unitOfScalarS false v = unitOfScalar v :=
   unitOfScalarS_spec v hv
 
+/-- **`unit_of` of a list/tuple** is the unit of its first element (the detour through `uniform` changes nothing), provided all elements
+    share its dimension; otherwise the call raises ValueError. -/
+theorem unit_of_container_spec (h : PyVal α) (t : List (PyVal α)) (hw : ∀ a ∈ h :: t, a.WF) :
+    ((∀ a ∈ t, a.dims = h.dims) → unitOf (.list (h :: t)) = .ok (unitOfScalar h)) ∧
+    ((∃ a ∈ t, a.dims ≠ h.dims) → unitOf (.list (h :: t)) = .error .valueError) :=
+  unitOf_list h t hw
+
 /-! ## registry ↔ human readable -/
 
 /-- **Human-readable round trip.** For a registry whose entries are the int `1` or `factor × (one unit object)` whose plain
@@ -327,12 +342,12 @@ example :
       = some [RegEntry.q 1 [(um, 1)], RegEntry.q 1 [(umol, 1)]] := by
   decide +kernel
 
-/-- **Deserialisation accepts / refuses.** An entry `(1, 1)` gives the int `1`; an entry `(factor, symbol)` is accepted iff the symbol
+/-- **Deserialisation accepts / refuses.** An entry `(factor, 1)` gives the plain number `factor * 1` (`(1, 1)`: the int `1`); an entry `(factor, symbol)` is accepted iff the symbol
     parses to exactly ONE unit object `u` (result `factor × u`); an unparseable symbol is a LookupError, a symbol that parses to a
     compound or to no unit ('m/s', 'N*m', 'dimensionless') a TypeError.  `None` round-trips to `None` (`toHumanOpt`, `fromHumanOpt`). -/
 theorem from_human_readable_accepts_iff (lookup : String → Option (List (SymUnit α × Int))) :
     (∀ e r, fromHumanEntry lookup e = .ok r ↔
-      (e = .one ∧ r = .num 1) ∨ ∃ f sym u k, e = .fs f sym ∧ lookup sym = some [(u, k)] ∧ r = .q f [(u, 1)]) ∧
+      (∃ f, e = .one f ∧ r = .num (f * 1)) ∨ ∃ f sym u k, e = .fs f sym ∧ lookup sym = some [(u, k)] ∧ r = .q f [(u, 1)]) ∧
     (∀ f sym, (fromHumanEntry lookup (.fs f sym) = .error .lookupError ↔ lookup sym = none) ∧
       (fromHumanEntry lookup (.fs f sym) = .error .typeError ↔ ∃ l, lookup sym = some l ∧ l.length ≠ 1)) ∧
     toHumanOpt (none : Option (List (RegEntry α))) = .ok none ∧ fromHumanOpt lookup none = .ok none :=
@@ -526,6 +541,16 @@ theorem helpers_allclose_broadcast_shape {β : Type} [Field β] [LinearOrder β]
     allcloseTriples (.scalar x) (.arr l) none = some (.ok ((List.replicate l.length x).zip (l.zip (List.replicate l.length none)))) ∧
     allcloseTriples (.arr l) (.arr [x]) none = some (.ok (l.zip ((List.replicate l.length x).zip (List.replicate l.length none)))) :=
   allcloseTriples_shapes x l hl hd
+
+/-- **Three-operand broadcast** (fixes e80401e, dadaf52): an array `atol` longer than both operands (two length-1 arrays, or two scalars)
+    is compared element by element against the repeated operands — every element of `atol` takes part, none is skipped. -/
+theorem helpers_allclose_atol_broadcast {β : Type} [Field β] [LinearOrder β] [IsStrictOrderedRing β]
+    (x y : PyVal β) (ts : List (PyVal β)) (hts : ts.length ≠ 1) (hd : x.dims = y.dims) :
+    allcloseTriples (.arr [x]) (.arr [y]) (some (.arr ts)) =
+      some (.ok ((List.replicate ts.length x).zip ((List.replicate ts.length y).zip (ts.map some)))) ∧
+    allcloseTriples (.scalar x) (.scalar y) (some (.arr ts)) =
+      some (.ok ((List.replicate ts.length x).zip ((List.replicate ts.length y).zip (ts.map some)))) :=
+  allcloseTriples_atol_longer x y ts hts hd
 
 /-- the fixed input: `[1 km]` against `[1000 m, 5000 m, 9000 m]` is NOT close (all three pairs are compared) -/
 example :
